@@ -236,8 +236,10 @@ Section Handle.
 End Handle.
 
 (* ---------------- opening the file ---------------- *)
+(* FsEACCES_DIR: PermissionError for a path that os.path.isdir() reports as a directory (what Windows answers when
+   a directory is opened); FsEACCES: PermissionError for anything else; FsEOTHER: any other OSError (EIO, ELOOP ...) *)
 Inductive fsr :=
-| FsOpened (content : str) | FsENOENT | FsEISDIR | FsENOTDIR | FsENAMETOOLONG | FsEACCES | FsEOTHER.
+| FsOpened (content : str) | FsENOENT | FsEISDIR | FsENOTDIR | FsENAMETOOLONG | FsEACCES | FsEACCES_DIR | FsEOTHER.
 
 Inductive result :=
 | RNotFound | RForbidden | RError
@@ -248,8 +250,9 @@ Definition serve (old_232 : bool) (fs_open : str -> fsr) (path : str) (tc : opti
   | FsOpened content => RContent content tc
   | FsENOENT | FsEISDIR => RNotFound
   | FsENOTDIR | FsENAMETOOLONG => if old_232 then RError else RNotFound
-  | FsEACCES => RForbidden
-  | FsEOTHER => RError
+  | FsEACCES => RForbidden        (* re-raised; the protocol classes answer 403 / access violation *)
+  | FsEACCES_DIR => RNotFound     (* `if os.path.isdir(file): return None, file` *)
+  | FsEOTHER => RError            (* re-raised: the error is the result of the request *)
   end.
 
 (* one request after a successful match: data-source calls, paths opened, result *)
